@@ -352,12 +352,24 @@ number of blanks put in front. -/
 theorem leading_ws_irrelevant_shape (ws l : Chars) (h : allSpace ws = true) : shape (ws ++ l) = (shape l).shift ws.length :=
   shape_leading_ws l h
 
-/-- … lifted through `classify`, for every expression parser that skips leading blanks (moving only its error column):
-the classified line is the same, an error column moves by the indentation. -/
+/-- … lifted through `classify`: for every statement kind that is not an expression statement, with NO assumption about
+the expression parser (it receives the same text): same classified line, an error column moves by the indentation. -/
+theorem leading_ws_irrelevant_stmt (parseExpr : String → Except ParseErr Expr) (ws l : Chars) (h : allSpace ws = true)
+    (hs : shape l ≠ .exprStmt) : classifyL parseExpr (ws ++ l) = shiftErr ws.length (classifyL parseExpr l) :=
+  classifyL_leading_ws_stmt parseExpr l h hs
+
+/-- … and for every line, up to the error column, for every expression parser that skips leading blanks
+(`SkipsLeadingBlanks`; `classify` is parametric in the expression parser, the hypothesis is about that parameter). -/
 theorem leading_ws_irrelevant (parseExpr : String → Except ParseErr Expr) (hpe : SkipsLeadingBlanks parseExpr)
     (ws l : Chars) (h : allSpace ws = true) :
-    classifyL parseExpr (ws ++ l) = shiftErr ws.length (classifyL parseExpr l) :=
+    EqUpToColumn (classifyL parseExpr (ws ++ l)) (classifyL parseExpr l) :=
   classifyL_leading_ws parseExpr hpe l h
+
+/-- the hypothesis is inhabited (a parser that strips blanks and accepts only the variable `x`) -/
+example : SkipsLeadingBlanks (fun s => if lstripL s.toList = ['x'] then .ok (.variable (.user "x")) else .error ⟨"Syntax error", 1⟩) := by
+  intro ws s h
+  simp only [String.toList_ofList, lstrip_append_ws s h]
+  split <;> simp [EqUpToColumn]
 
 example : shape "\t  if x > 1 :  ".toList = .ifBegin 6 "x > 1 ".toList ∧ shape "if x > 1 :  ".toList = .ifBegin 3 "x > 1 ".toList := by
   decide
